@@ -121,8 +121,11 @@ def check_cond_ctor(ctx, opname, args, exprs, fresh=True):
     ctx.viol(f"conditions.{opname} is not equivalent to the plain connective (argument kinds: {kinds})",
              expr=expr, shown=M.show(expr), result=repr(r), valuation=M.valuation(k),
              result_true=bool(got >> k & 1), expected_true=bool(want >> k & 1))
-  if want != M.expr_tt(expr):
-    raise AssertionError("oracle self-check: argument truth tables differ from the expression's")
+  if ctx.cases & 31 == 0 or ctx.cases < 5000:
+    # oracle self-check (sampled): truth tables read from the real arguments == the expression's
+    ctx.count("oracle_selfcheck_expression_truth_table")
+    if want != M.expr_tt(expr):
+      raise AssertionError("oracle self-check: argument truth tables differ from the expression's")
   bad = M.malformed(r)
   if bad:
     ctx.viol(f"conditions.{opname} result has TRUE/FALSE as a member of a composite",
@@ -736,7 +739,8 @@ def _tasks(tier, seed):
   rng = random.Random(f"{PID}-{seed}")
   tasks = []
 
-  def add(arg, tid, hs="0", timeout=3000):
+  def add(arg, tid, hs="0", timeout=None):
+    timeout = timeout or (900 if tier == "quick" else 3000)
     arg = dict(arg)
     arg.setdefault("seed", rng.randrange(1 << 30))
     tasks.append({"fn": "vf.checks.c18:child", "arg": arg, "id": tid, "hashseed": hs, "timeout": timeout})
@@ -751,11 +755,11 @@ def _tasks(tier, seed):
   stride = 48 if quick else 1
   for s in range(nsh):
     add({"what": "pairs", "shard": s, "nshards": nsh, "stride": stride, "offset": seed,
-         "follow_every": 50 if quick else 200}, f"pairs/{s}", HASHSEEDS[s % 3], timeout=5000)
+         "follow_every": 50 if quick else 60}, f"pairs/{s}", HASHSEEDS[s % 3])
   nsh = 6 if quick else 12
   for s in range(nsh):
     add({"what": "unary3", "shard": s, "nshards": nsh, "follow_every": 40}, f"unary3/{s}", HASHSEEDS[s % 3])
-  nb, cnt = (6, 1500) if quick else (24, 12000)
+  nb, cnt = (6, 1500) if quick else (48, 15000)
   for b in range(nb):
     add({"what": "walk", "count": cnt, "max_steps": 10 if quick else 14}, f"walk/{b}", HASHSEEDS[b % 3])
   return tasks, {"pairs_stride": stride}
